@@ -232,13 +232,8 @@ class Island(Part):
         kind = case["kind"]
         stmt = dict(ISLANDS)[kind]
         name = case["name"]
-        # drop duplicate attribute names and anything called zz
-        attrs, seen = [], set()
-        for a in case["attrs"]:
-            if a[1].lower() in seen or a[1].lower() == "zz":
-                continue
-            seen.add(a[1].lower())
-            attrs.append(a)
+        # (repeated attribute names are kept: tag soup); nothing called zz
+        attrs = [a for a in case["attrs"] if a[1].lower() != "zz"]
         pieces = [markup.ser_attr(a) for a in attrs]
         val = case["value"]
         esc = html.escape(val, quote=False)
